@@ -1,6 +1,6 @@
 #!/bin/bash
 # sweep.sh "<seeds>" [tier]: every check for every given VERIF_SEED on the current tree; one line per run
-cd /verif
+cd "$(dirname "$0")/.."
 for s in $1; do
   for p in C01 C02 C03 C04 C05 C06 C07 C08 C09 C10 C11 C12 C13 C14 C15 C16 C17 C18 C19; do
     out=$(./check $p --tier ${2:-quick} --seed $s 2>&1); rc=$?
